@@ -38,7 +38,7 @@ def session(rng, sup, transport, fam, limit):
         ies.append(rng.choice(G.by_type()[13]))
     tid = rng.choice([256, 257, 4000, 65535])
     ops = ["e2e open %s %s %s %d" % (transport, fam, rng.choice(["strict", "keep", "drop"]), rng.choice([0, 1, 7, 0xffffffff, rng.getrandbits(32)]))]
-    ops.append("e2e send %s t %d %d@%s" % (rng.choice("012"), tid, tid, X.elems(rng, ies, False)))
+    ops.append("e2e send %s t %d %d@%s" % (rng.choice(X.PATHS), tid, tid, X.elems(rng, ies, False)))
     var = [ie for ie in ies if ie.len == 65535]
     for _ in range(rng.randint(1, 5)):
         nrec = rng.choice([1, 1, 2, 3, 8])
@@ -51,7 +51,7 @@ def session(rng, sup, transport, fam, limit):
                 else:
                     vals.append("%s=%s" % (ie.tok(), G.well_typed_value(rng, ie, big_ok=False, maxlen=120)))
             recs.append("%d@%s" % (tid, ",".join(vals)))
-        op = "e2e send %s d %d %s" % (rng.choice("012"), tid, ";".join(recs))
+        op = "e2e send %s d %d %s" % (rng.choice(X.PATHS), tid, ";".join(recs))
         if len(op) // 2 < limit:
             ops.append(op)
     if var and limit > 60000 and rng.random() < 0.5:
@@ -69,7 +69,7 @@ def session(rng, sup, transport, fam, limit):
                 size += len(W.enc_value(ie, v))
         payload = 65535 - size - 3
         vals = [f if f is not None else "%s=x%s" % (var[0].tok(), G.hexs(G.rand_bytes(rng, payload))) for f in fixed]
-        ops.append("e2e send %s d %d %d@%s" % (rng.choice("012"), tid, tid, ",".join(vals)))
+        ops.append("e2e send %s d %d %d@%s" % (rng.choice(X.PATHS), tid, tid, ",".join(vals)))
     ops.append("e2e close")
     nt = len(ies) >= 2 and any(ie.len == 65535 or ie.ent != 0 for ie in ies)
     return Case(ops, "%s%s" % (transport, fam), nt, True)
